@@ -108,6 +108,18 @@ fn scratch_root() -> String {
     std::env::var("TMPDIR").unwrap_or_else(|_| "/tmp".into())
 }
 
+/// Does this strace accept the injection specification (system call and errno names)?
+fn inject_spec_ok(call: &str, errno: &str) -> bool {
+    std::process::Command::new("/usr/bin/strace")
+        .args(["-f", "-qq", "-o", "/dev/null", "-e", &format!("trace={call}"), "-e", &format!("inject={call}:error={errno}:when=999999"), "/bin/true"])
+        .stdin(std::process::Stdio::null())
+        .stdout(std::process::Stdio::null())
+        .stderr(std::process::Stdio::null())
+        .status()
+        .map(|s| s.success())
+        .unwrap_or(false)
+}
+
 fn harness_fail(msg: &str) -> ! {
     eprintln!("HARNESS-ERROR: {msg}");
     std::process::exit(2);
@@ -763,6 +775,15 @@ fn cmd_run(o: &Opts) -> i32 {
                 }
             }
         }
+        if !quick {
+            // a torn meta.json at every byte, produced by a real kill between one-byte writes
+            if let Some((tag, s0)) = states.iter().find(|(t, _)| t == "absent") {
+                for k in 0..ctx.reference.meta_text.len() + 2 {
+                    let seed = derive(o.seed, "C15-torn", k as u64);
+                    cells.push(gen::c15_cell(&ctx, tag, s0, vec![Fault::ShortWrites { max: 1 }, Fault::Kill { point: "meta.write".into(), k }], subset.clone(), seed));
+                }
+            }
+        }
         let n_cells = cells.len();
         collect(&mut st, &mut found, &cells);
         // phase 3: seeded deeper histories
@@ -776,13 +797,26 @@ fn cmd_run(o: &Opts) -> i32 {
         collect(&mut st, &mut found, &randoms);
         // phase 4: crash points and I/O errors inside tantivy, injected from outside with ptrace
         let mut n_sys = 0;
-        let strace_ok = std::path::Path::new("/usr/bin/strace").is_file() && std::env::var("VERIF_NO_STRACE").is_err();
+        // the injector needs ptrace: probe it once, and do without this phase where it is not permitted
+        let strace_ok = std::path::Path::new("/usr/bin/strace").is_file()
+            && std::env::var("VERIF_NO_STRACE").is_err()
+            && std::process::Command::new("/usr/bin/strace")
+                .args(["-f", "-qq", "-o", "/dev/null", "-e", "trace=write", "-e", "inject=write:error=ENOSPC:when=999999", "/bin/true"])
+                .stdin(std::process::Stdio::null())
+                .stdout(std::process::Stdio::null())
+                .stderr(std::process::Stdio::null())
+                .status()
+                .map(|s| s.success())
+                .unwrap_or(false);
         if strace_ok {
             let mut sys = Vec::new();
             let sstates = gen::syscall_states(&ctx);
             let mut r = Rng::new(derive(o.seed, "C15-sys", 0));
             for (tag, s) in &sstates {
                 for (call, max, errno) in gen::syscall_sites() {
+                    if !inject_spec_ok(call, errno) {
+                        continue;
+                    }
                     for when in 1..=max {
                         for errno in [None, Some(errno.to_string())] {
                             // quick: a seeded 1-in-60 sample keeps the injector exercised on every change
@@ -873,7 +907,12 @@ fn cmd_run(o: &Opts) -> i32 {
             continue;
         }
         println!("violation [{}] in history {:?}: {}", f.violation.clause, f.history.label, f.violation.detail);
-        let sh = shrink(&ctx, &f.history, &f.violation, 150, &ctx.scratch.join("shrink"), 0);
+        let budget = match prop {
+            "C18" => 400,
+            "C19" | "C16" => 200,
+            _ => 150,
+        };
+        let sh = shrink(&ctx, &f.history, &f.violation, budget, &ctx.scratch.join("shrink"), 0);
         let path = write_replay(
             o,
             &sh.history,
